@@ -268,17 +268,25 @@ func (g *genState) container(depth int) Val {
 	c := g.c
 	n := c.Small(g.o.MaxElems)
 	// deep chains: occasionally build a narrow deep nest
-	if depth == 0 && g.o.MaxDepth >= 33 && c.N(12) == 0 {
-		d := []int{31, 32, 33, 34, 40}[c.N(5)]
-		if d > g.o.MaxDepth {
-			d = g.o.MaxDepth
-		}
+	if depth == 0 && c.N(16) == 0 {
+		// beyond the parsers' pre-allocated state stacks (32 / 64 entries);
+		// every level gets a sibling after the nested child
+		d := []int{31, 32, 33, 34, 40, 63, 64, 65, 70}[c.N(9)]
+		mode := c.N(3)
 		v := g.scalar()
 		for i := 0; i < d; i++ {
-			if c.Bool() {
+			arr := mode == 0 || mode == 2 && c.Bool()
+			if arr {
 				v = Val{K: VArr, A: []Val{v}}
+				if c.N(3) == 0 {
+					v.A = append(v.A, Int(int64(i)))
+				}
 			} else {
 				v = Val{K: VObj, A: []Val{v}, Keys: []string{GenKey(c, 8)}}
+				if c.N(3) == 0 {
+					v.A = append(v.A, Bool(true))
+					v.Keys = append(v.Keys, "s")
+				}
 			}
 		}
 		return v
